@@ -18,6 +18,7 @@ import (
 	"k8s.io/apimachinery/pkg/runtime"
 	"k8s.io/apimachinery/pkg/runtime/schema"
 	"k8s.io/apimachinery/pkg/types"
+	kjson "k8s.io/apimachinery/pkg/util/json"
 	"k8s.io/apimachinery/pkg/util/validation/field"
 	"sigs.k8s.io/controller-runtime/pkg/client"
 	"sigs.k8s.io/controller-runtime/pkg/client/apiutil"
@@ -195,10 +196,9 @@ func (c *Client) toJSON(obj runtime.Object) (map[string]any, schema.GroupVersion
 		if err != nil {
 			return nil, gvk, err
 		}
-		if err := json.Unmarshal(b, &m); err != nil {
+		if err := kjson.Unmarshal(b, &m); err != nil {
 			return nil, gvk, err
 		}
-		m = normalizeNumbers(m).(map[string]any)
 	}
 	m["apiVersion"] = gvk.GroupVersion().String()
 	m["kind"] = gvk.Kind
@@ -206,7 +206,8 @@ func (c *Client) toJSON(obj runtime.Object) (map[string]any, schema.GroupVersion
 }
 
 // normalizeNumbers turns float64 values that hold integers into int64, the representation
-// unstructured content uses.
+// unstructured content uses. (Request and stored bodies are decoded with the API machinery's
+// int-preserving decoder; this is only for values built by Go code.)
 func normalizeNumbers(v any) any {
 	switch t := v.(type) {
 	case map[string]any:
@@ -1056,7 +1057,7 @@ func (c *Client) patch(sub string, obj client.Object, p client.Patch, opts []cli
 	}
 	var body map[string]any
 	if p.Type() != types.JSONPatchType {
-		_ = json.Unmarshal(data, &body)
+		_ = kjson.Unmarshal(data, &body)
 		req.body = body
 	} else {
 		req.body = map[string]any{"jsonpatch": string(data)}
@@ -1091,10 +1092,9 @@ func (c *Client) patch(sub string, obj client.Object, p client.Patch, opts []cli
 				return nil, kerrors.NewInvalid(gvk.GroupKind(), k.Name, field.ErrorList{field.Invalid(field.NewPath("patch"), "", perr.Error())})
 			}
 			var next map[string]any
-			if err := json.Unmarshal(nb, &next); err != nil {
+			if err := kjson.Unmarshal(nb, &next); err != nil {
 				return nil, kerrors.NewBadRequest(err.Error())
 			}
-			next = normalizeNumbers(next).(map[string]any)
 			next, err := w.prepareUpdate(gvk, sub, cur, next)
 			if err != nil || next == nil {
 				return next, err
